@@ -63,6 +63,14 @@ type snapCase struct {
 	// stuck in a slow write, and the owned clock moves on by StallMs meanwhile
 	StallLeave bool `json:"stall_leave,omitempty"`
 	StallMs    int  `json:"stall_ms,omitempty"`
+	// Picks (C11): further crash images to continue from, as indices modulo the
+	// number of images (torn ones included)
+	Picks []int `json:"picks,omitempty"`
+	// UnpacedEnd (C13): the history ends in a burst of events handed over without
+	// waiting, and the shutdown follows at once
+	UnpacedEnd bool `json:"unpaced_end,omitempty"`
+	// NoTail (C12): no fixed epilogue of changes after the history
+	NoTail bool `json:"no_tail,omitempty"`
 	// SelfIdx (C10 Serf layer): 0 = the restarted node has a name of its own,
 	// k>0 = it is Names[(k-1)%len] (if that is usable as a node name)
 	SelfIdx int `json:"self_idx,omitempty"`
@@ -603,19 +611,50 @@ func readSnapshotter(s *serf.Snapshotter) recovered {
 // restoreFrom starts a fresh Snapshotter (as a restarted node would) on the
 // given file system content and reports what it recovered.
 func restoreFrom(files map[string]string, path string, rejoin bool) (recovered, error) {
+	rec, _, err := restoreTwice(files, path, rejoin, false)
+	return rec, err
+}
+
+// restoreTwice restarts on the given content, shuts that node down again
+// without anything having happened, and (twice=true) restarts once more on what
+// it left behind: second is what that second restart recovers.
+func restoreTwice(files map[string]string, path string, rejoin bool, twice bool) (first, second recovered, err error) {
 	fs := newMemFS()
 	fs.load(files)
 	serf.VerifSetFS(fs)
 	defer serf.VerifSetFS(nil)
-	shut := make(chan struct{})
-	var lc serf.LamportClock
-	lc.Increment()
-	_, s, err := serf.NewSnapshotter(path, 1<<30, rejoin, log.New(io.Discard, "", 0), &lc, nil, shut)
-	if err != nil {
-		return recovered{}, err
+	for i := 0; i < 2; i++ {
+		shut := make(chan struct{})
+		var lc serf.LamportClock
+		lc.Increment()
+		_, s, err := serf.NewSnapshotter(path, 1<<30, rejoin, log.New(io.Discard, "", 0), &lc, nil, shut)
+		if err != nil {
+			return first, second, err
+		}
+		rec := readSnapshotter(s)
+		close(shut)
+		s.Wait()
+		if i == 0 {
+			first, second = rec, rec
+			if !twice {
+				break
+			}
+			// a restart is a function of the files: if this one left them as they
+			// were, the next one finds the same
+			now := fs.snapshotFilesLocked()
+			same := len(now) == len(files)
+			for p, c := range files {
+				if nc, ok := now[p]; !ok || nc != c {
+					same = false
+					break
+				}
+			}
+			if same {
+				break
+			}
+		} else {
+			second = rec
+		}
 	}
-	rec := readSnapshotter(s)
-	close(shut)
-	s.Wait()
-	return rec, nil
+	return first, second, nil
 }
